@@ -16,14 +16,14 @@ import (
 type Scenario string
 
 const (
-	InPlace      Scenario = "inplace"       // out == "" → input is replaced
-	NewOut       Scenario = "new"           // explicit output that does not exist
-	Existing0644 Scenario = "existing-0644" // explicit output that exists
-	Existing0600 Scenario = "existing-0600"
-	Existing0755 Scenario = "existing-0755"
+	InPlace       Scenario = "inplace"       // out == "" → input is replaced
+	NewOut        Scenario = "new"           // explicit output that does not exist
+	Existing0644  Scenario = "existing-0644" // explicit output that exists
+	Existing0600  Scenario = "existing-0600"
+	Existing0755  Scenario = "existing-0755"
 	OutDirMissing Scenario = "outdir-missing" // output inside a directory that does not exist (must fail cleanly)
-	DirEmpty     Scenario = "dir-empty"       // DirOut: empty output directory
-	DirExisting  Scenario = "dir-existing"    // DirOut: the outputs already exist (old content)
+	DirEmpty      Scenario = "dir-empty"      // DirOut: empty output directory
+	DirExisting   Scenario = "dir-existing"   // DirOut: the outputs already exist (old content)
 )
 
 // Scenarios lists the scenarios that apply to op.
